@@ -49,8 +49,11 @@ namespace
   {
     static const int c_q = Ctx::counter_id("kd_queries"), c_ties = Ctx::counter_id("kd_queries_with_ties");
     const KdCase &c = (*cases)[idx];
+    // the same point sets at several scales of the lattice unit (kilometres, sixteenths, radians-per-degree): distances below and above 1
+    for (const double scale : {1.0, 0.0625, 1e3, 0.017453292519943295})
+    {
     std::vector<WorldBuilder::KDTree::Node> nodes;
-    for (size_t i = 0; i < c.pts.size(); ++i) nodes.emplace_back(i, static_cast<double>(c.pts[i] / L), static_cast<double>(c.pts[i] % L));
+    for (size_t i = 0; i < c.pts.size(); ++i) nodes.emplace_back(i, scale * static_cast<double>(c.pts[i] / L), scale * static_cast<double>(c.pts[i] % L));
     WorldBuilder::KDTree::KDTree tree(nodes);
     tree.create_tree(0, nodes.size()-1, false);
     // the tree must still hold exactly the given points
@@ -63,13 +66,14 @@ namespace
     }
     for (int qx = -1; qx <= 2*(L-1)+1; ++qx) for (int qy = -1; qy <= 2*(L-1)+1; ++qy)
         {
-          const double x = 0.5*qx, y = 0.5*qy;
+          const double x = scale*0.5*qx, y = scale*0.5*qy;
+          const double eps = 1e-12 * scale;
           double best = 1e300; int nbest = 0;
           for (auto &n : nodes)
             {
               const double d = std::sqrt((n.x-x)*(n.x-x) + (n.y-y)*(n.y-y));
-              if (d < best - 1e-12) { best = d; nbest = 1; }
-              else if (std::fabs(d - best) <= 1e-12) ++nbest;
+              if (d < best - eps) { best = d; nbest = 1; }
+              else if (std::fabs(d - best) <= eps) ++nbest;
             }
           ctx.eval();
           ctx.count(c_q);
@@ -83,13 +87,14 @@ namespace
             const auto &n = tree.get_nodes()[index];
             return std::sqrt((n.x-x)*(n.x-x) + (n.y-y)*(n.y-y));
           };
-          if (std::fabs(r.distance - best) > 1e-12 || std::fabs(dist_of(r.index) - best) > 1e-12)
-            ctx.violation("C19/kdtree/find_closest_point", JObj().raw("points_in_insertion_order", jarr(c.pts)).integer("lattice", L).raw("query", jarr(std::vector<double>{x, y}))
+          if (std::fabs(r.distance - best) > eps || std::fabs(dist_of(r.index) - best) > eps)
+            ctx.violation("C19/kdtree/find_closest_point", JObj().raw("points_in_insertion_order", jarr(c.pts)).integer("lattice", L).num("scale_of_the_lattice_unit", scale).raw("query", jarr(std::vector<double>{x, y}))
                           .num("brute_force_min", best).num("reported_distance", r.distance).num("distance_of_reported_node", dist_of(r.index)).done());
-          if (std::fabs(rs.min_distance - best) > 1e-12 || std::fabs(dist_of(rs.min_index) - best) > 1e-12)
-            ctx.violation("C19/kdtree/find_closest_points", JObj().raw("points_in_insertion_order", jarr(c.pts)).integer("lattice", L).raw("query", jarr(std::vector<double>{x, y}))
+          if (std::fabs(rs.min_distance - best) > eps || std::fabs(dist_of(rs.min_index) - best) > eps)
+            ctx.violation("C19/kdtree/find_closest_points", JObj().raw("points_in_insertion_order", jarr(c.pts)).integer("lattice", L).num("scale_of_the_lattice_unit", scale).raw("query", jarr(std::vector<double>{x, y}))
                           .num("brute_force_min", best).num("reported_distance", rs.min_distance).num("distance_of_reported_node", dist_of(rs.min_index)).done());
         }
+    }
     if (c.pts.size() >= 2) ctx.nontrivial();
     if (idx % 997 == 1) ctx.sample(JObj().str("kernel", "kd-tree").raw("lattice_point_ids_in_insertion_order", jarr(c.pts)).done());
   }
@@ -188,9 +193,21 @@ namespace
           const Point<2> p = curve(i, static_cast<double>(k)/NS);
           samp[i*(NS+1)+static_cast<size_t>(k)] = {{p[0], p[1]}};
         }
+    std::vector<std::array<double,2>> queries;
     for (int qx = -2; qx <= 2*(L-1)+2; ++qx) for (int qy = -2; qy <= 2*(L-1)+2; ++qy)
+        queries.push_back({{0.5*unit*qx + 0.013*unit, 0.5*unit*qy - 0.007*unit}});   // off the lattice: generic points
+    // points on the curve normal through every interior coordinate: their foot is the joint of two curve segments
+    for (size_t k = 1; k + 1 < pts.size(); ++k)
+      {
+        const Point<2> t = curve.get_control_points()[k][0] - pts[k];
+        const double tn = t.norm();
+        if (!(tn > 0)) continue;
+        for (double sd : {0.1, -0.1, 0.3, -0.3, 0.23456, -0.17})
+          queries.push_back({{pts[k][0] - sd*unit*t[1]/tn, pts[k][1] + sd*unit*t[0]/tn}});
+      }
+    for (const auto &qq : queries)
         {
-          const double x = 0.5*unit*qx + 0.013*unit, y = 0.5*unit*qy - 0.007*unit;   // off the lattice: generic points
+          const double x = qq[0], y = qq[1];
           double best = 1e300; size_t bi = 0;
           for (size_t s = 0; s < samp.size(); ++s)
             {
@@ -299,7 +316,7 @@ int main(int argc, char **argv)
   Spec spec;
   spec.property = "C19";
   spec.level = "exploration";
-  spec.rule = "kd-tree: every subset of <= k lattice points in every insertion order (for subsets up to 4 points) x all half-step query points incl. ties; polygon kernel: every simple lattice "
+  spec.rule = "kd-tree: every subset of <= k lattice points in every insertion order (for subsets up to 4 points) x 4 scales of the lattice unit (1, 1/16, 1000, pi/180) x all half-step query points incl. ties; polygon kernel: every simple lattice "
               "polygon (all cyclic starts, both orientations) x 3 scalings x all half-step points incl. every edge/vertex point, exact integer oracle; Bezier: every lattice polyline with 2..4 "
               "points and bends <= 60 degrees x a generic query lattice, oracle = dense sampling + ternary refinement; conversions/great circle: full (lon,lat) lattice, all pairs, long-double "
               "Vincenty reference. non-trivial: >= 2 points / both inside and outside / interior foot; cases distinct by construction";
